@@ -797,8 +797,30 @@ impl<'a> Sim<'a> {
                         let kind = dbg.split(['(', ' ', '{']).next().unwrap_or("?").to_string();
                         self.trace.ev(&format!("checktx op={} tx={} node={n} -> {kind}", t.id, hex::encode(&id[..6])));
                         self.stats.probe(&format!("checktx.{kind}"));
+                        if self.trace.keep && (kind == "AddedToPending" || kind == "InternalError") {
+                            // diagnostics only: would this transaction execute on the committed state?
+                            let snap = self.nodes[n].storage.latest_snapshot();
+                            match crate::checked_transaction::CheckedTransaction::new(bytes.clone(), &snap).await {
+                                Ok(ctx) => {
+                                    let mut delta = cnidarium::StateDelta::new(snap);
+                                    use crate::app::StateWriteExt as _;
+                                    let _ = delta.put_block_timestamp(world::block_time(self.height + 1, 0));
+                                    if let Err(e) = ctx.execute(&mut delta).await {
+                                        self.trace.lines.push(format!("    dry-run: {:#}", astria_eyre::eyre::Report::new(e)).chars().take(500).collect());
+                                    }
+                                }
+                                Err(e) => self.trace.lines.push(format!("    dry-run construct: {e:#}")),
+                            }
+                            if kind == "InternalError" {
+                                self.trace.lines.push(format!("    reason: {}", dbg.chars().take(400).collect::<String>()));
+                            }
+                        }
                         if kind.starts_with("Failed") {
                             self.stats.probe("tx.excluded-or-failed");
+                            if self.trace.keep {
+                                // diagnostics only (not part of the event-log hash)
+                                self.trace.lines.push(format!("    reason: {}", dbg.chars().take(400).collect::<String>()));
+                            }
                         }
                     }
                     Err(_) => {
@@ -1316,6 +1338,9 @@ impl<'a> Sim<'a> {
         }
         self.model.end_block(&mut findings);
         self.model.end_block_validators();
+        for pr in std::mem::take(&mut self.model.probes) {
+            self.stats.probe(pr);
+        }
         if self.model.sudo != sudo_before {
             self.stats.probe("authority.handover");
         }
@@ -1661,18 +1686,36 @@ impl<'a> Sim<'a> {
         let mut acks: Vec<(u64, bool)> = Vec::new();
         for ev in &result.events {
             if ev.kind == SendPacket::TYPE_STR {
-                if let Ok(sp) = SendPacket::try_from(ev.clone()) {
-                    self.sent_packets.push(ibc_types::core::channel::Packet {
-                        sequence: sp.sequence,
-                        port_on_a: sp.src_port_id,
-                        chan_on_a: sp.src_channel_id,
-                        port_on_b: sp.dst_port_id,
-                        chan_on_b: sp.dst_channel_id,
-                        data: sp.packet_data,
-                        timeout_height_on_b: sp.timeout_height,
-                        timeout_timestamp_on_b: sp.timeout_timestamp,
-                    });
-                    self.stats.probe("ibc.packet-sent");
+                let attr = |k: &str| ev.attributes.iter().find(|a| a.key_str().ok() == Some(k)).and_then(|a| a.value_str().ok().map(str::to_string));
+                let packet = (|| {
+                    use ibc_types::core::channel::{
+                        packet::Sequence,
+                        TimeoutHeight,
+                    };
+                    let th = attr("packet_timeout_height")?;
+                    let timeout_height_on_b = if th == "0-0" {
+                        TimeoutHeight::Never
+                    } else {
+                        let (r, hh) = th.split_once('-')?;
+                        TimeoutHeight::At(ibc_types::core::client::Height::new(r.parse().ok()?, hh.parse().ok()?).ok()?)
+                    };
+                    Some(ibc_types::core::channel::Packet {
+                        sequence: Sequence(attr("packet_sequence")?.parse().ok()?),
+                        port_on_a: attr("packet_src_port")?.parse().ok()?,
+                        chan_on_a: attr("packet_src_channel")?.parse().ok()?,
+                        port_on_b: attr("packet_dst_port")?.parse().ok()?,
+                        chan_on_b: attr("packet_dst_channel")?.parse().ok()?,
+                        data: hex::decode(attr("packet_data_hex")?).ok()?,
+                        timeout_height_on_b,
+                        timeout_timestamp_on_b: ibc_types::timestamp::Timestamp::from_nanoseconds(attr("packet_timeout_timestamp")?.parse().ok()?).ok()?,
+                    })
+                })();
+                match packet {
+                    Some(p) => {
+                        self.sent_packets.push(p);
+                        self.stats.probe("ibc.packet-sent");
+                    }
+                    None => self.stats.probe("ibc.packet-sent.unparsed"),
                 }
             } else if ev.kind == WriteAcknowledgement::TYPE_STR {
                 let attr = |k: &str| ev.attributes.iter().find(|a| a.key_str().ok() == Some(k)).and_then(|a| a.value_str().ok().map(str::to_string));
@@ -2055,6 +2098,11 @@ impl<'a> Sim<'a> {
                 }
                 let idx = (*k as usize) % n_user;
                 let t = txs[injected + idx].clone();
+                // (an IbcRelay transaction that fails non-fatally leaves its nonce unused, so a
+                // second copy of it fails the same way and the block stays acceptable)
+                if decode_tx(&t).ok()?.actions().iter().any(|a| matches!(a, Action::Ibc(_))) {
+                    return None;
+                }
                 txs.push(t);
                 class = "duplicate-tx".to_string();
             }
